@@ -17,7 +17,7 @@ RULE = ('2-5 real threads make the FIRST request of a fresh SingletonDecorator o
         'distinct_nontrivial = distinct context-switch sequences in which >= 2 threads were inside __call__ at the same time')
 CASES = {'quick': 1500, 'thorough': 100000}
 BUDGET = {'quick': 150, 'thorough': 600}
-REQUIRE = {'runs': 800, 'overlapping_first_requests': 200, 'active_object_constructions': 100, 'systematic_schedules': 300, 'systematic_scenarios_exhausted': 6, 'os_backend_runs': 40, 'runs_with_slow_first_construction': 150}
+REQUIRE = {'runs': 800, 'overlapping_first_requests': 200, 'active_object_constructions': 66, 'systematic_schedules': 300, 'systematic_scenarios_exhausted': 6, 'os_backend_runs': 25, 'runs_with_slow_first_construction': 150}
 SYS = {'quick': (16, 1, 2500, 30.0), 'thorough': (32, 2, 100000, 150.0)}     # systematic cases, deviation bound, schedule cap, seconds cap (per scenario)
 ASSUME = ['fresh SingletonDecorator objects per run (same class as the module-level ones); module-level instances created at import are not re-raced']
 ANNOUNCE_CASES = True
